@@ -341,7 +341,7 @@ def main():
                 'functions_encoded': sorted(set(f for q in main_q for f in q['functions']))[:400],
                 'translation_units': sorted(set(t for h in harnesses for t in h['tus'])),
                 'bounds': spec.get('bounds', {}).get(tier, spec.get('bounds', {}).get('quick', '')), 'outside_bounds': spec.get('outside', ''),
-                'longest_path_instructions': max([q.get('max_path_steps', 0) for q in queries] or [0]), 'path_limit_instructions': 30000000,
+                'longest_path_instructions': max([q.get('max_path_steps', 0) for q in queries] or [0]), 'path_limit_instructions': 100000000,
                 'selftests': selftests, 'known_findings_reproduced': [k[0] for k in known_hits], 'inconclusive': inconclusive[:10],
                 'all_queries': [{k: v for k, v in q.items() if k != 'functions'} for q in queries][:200],
                 'exhaustive': False,
